@@ -146,12 +146,21 @@ func Main(tier, replay string) {
 			scen.Set(c, "openapiGeneratorConfig.openapi", ver)
 			return c
 		}
+		sameLen := func(c map[string]any) map[string]any {
+			scen.Set(c, "openapiGeneratorConfig.info.version", "2.0.0")
+			scen.Set(c, "openapiGeneratorConfig.info.title", "Scenario IPA")
+			scen.Set(c, "openapiGeneratorConfig.baseUrl", "https://api.example.org/v2/")
+			return c
+		}
 		alphabet := []scen.OWStep{
 			{Name: "all-controllers/3.0.0", Config: mkCfg(all, "3.0.0"), Args: []string{"generate", "spec"}},
 			{Name: "all-controllers/3.1.0", Config: mkCfg(all, "3.1.0"), Args: []string{"generate", "spec"}},
 			{Name: "one-controller/3.0.0", Config: mkCfg(all[:1], "3.0.0"), Args: []string{"generate", "spec"}},
 			{Name: "one-controller/3.1.0", Config: mkCfg(all[:1], "3.1.0"), Args: []string{"generate", "spec"}},
 			{Name: "two-controllers/3.0.0/spec-and-routes", Config: mkCfg(all[:2], "3.0.0"), Args: []string{"generate", "spec-and-routes"}},
+			// the same project and version with configuration texts edited to others of the same length: the document
+			// a fresh run writes has the same byte count as letter 0's, and differs from it
+			{Name: "all-controllers/3.0.0/same-length-config-edit", Config: sameLen(mkCfg(all, "3.0.0")), Args: []string{"generate", "spec"}},
 		}
 		initials := []scen.OWInitial{{Name: "no file"}, {Name: "a longer stale file", Files: map[string]string{"dist/openapi.json": strings.Repeat("stale ", 60000)}},
 			{Name: "a shorter stale file", Files: map[string]string{"dist/openapi.json": "{}"}}}
@@ -188,7 +197,7 @@ func Main(tier, replay string) {
 	run.Set("findings_total", findings)
 	run.Sample(map[string]any{"family": "signature", "case": sig.Cases[0]})
 	run.Sample(map[string]any{"family": "types", "case": typ.Cases[0]})
-	run.Bound = fmt.Sprintf("every document (3.0.0 and 3.1.0) emitted for the signature (%d), type (%d), layout (%d), security (%d) and generic-instantiation (%d) scenario families, packed and alone; through the real CLI every history of <= %d commands over 5 (controller set, version, command) letters from 3 initial states of the output file", len(sig.Cases), len(typ.Cases), len(lay.Cases), len(sec.Cases), len(gen.Cases), map[string]int{"quick": 2, "thorough": 3}[tier])
+	run.Bound = fmt.Sprintf("every document (3.0.0 and 3.1.0) emitted for the signature (%d), type (%d), layout (%d), security (%d) and generic-instantiation (%d) scenario families, packed and alone; through the real CLI every history of <= %d commands over 6 (controller set, version, command, configuration text) letters from 3 initial states of the output file", len(sig.Cases), len(typ.Cases), len(lay.Cases), len(sec.Cases), len(gen.Cases), map[string]int{"quick": 2, "thorough": 3}[tier])
 	run.Rule = "state = one generated project; transition = one run of the real pipeline + spec generators; validated = documents checked by the independent structural validator ($ref closure, path-template/path-parameter bijection, unique parameters, response descriptions, enum value types, JSON-schema types, info/servers/securitySchemes as configured)"
 	run.Assumptions = []string{"documents of projects with error diagnostics are not judged (the command writes nothing for them; C10 checks that)"}
 	os.RemoveAll(scratch)
